@@ -1,11 +1,25 @@
 import MakoModel.Basic.Wire
 import MakoModel.Path.Drv
+import MakoModel.Lookup.Drv
+import MakoModel.Filters.Drv
+import MakoModel.Pipeline.Drv
+import MakoModel.Lexer.Drv
+import MakoModel.Conc.Drv
+import MakoModel.Extract.Drv
+import MakoModel.Printer.Drv
 /-! Dispatch table of the driver: one line per model area (`op prefix`, handler). -/
 namespace Driver
 open MakoModel
 
 def table : List (String × Wire.Handler) :=
   [ ("path", Path.Drv.handle)
+  , ("lookup", Lookup.Drv.handle)
+  , ("filt", Filters.Drv.handle)
+  , ("pipe", Pipeline.Drv.handle)
+  , ("lex", Lexer.Drv.handle)
+  , ("conc", Conc.Drv.handle)
+  , ("extr", Extract.Drv.handle)
+  , ("prn", Printer.Drv.handle)
   ]
 
 end Driver
